@@ -129,6 +129,9 @@ func Load(dir string, extraPatterns ...string) (*Program, error) {
 		}()
 	}
 	m.BaseNext = path.Next
+	if os.Getenv("GOCV_HEAPSTAT") != "" {
+		fmt.Fprintf(os.Stderr, "base heap: %d objects\n", len(m.BaseHeap))
+	}
 	// index functions
 	for fn := range ssautil.AllFunctions(prog) {
 		if fn.Pkg == nil && fn.Origin() == nil && fn.Parent() == nil {
